@@ -185,6 +185,7 @@ pub fn observed_coding(r: &httpc::Resp, body_len: usize) -> Result<Option<Coding
 }
 
 pub fn check(ctx: &Ctx, c: &Case, case_seed: u64, mode: &str) {
+    crate::util::current_case(case_seed, mode);
     let o = execute(c, case_seed, &[]);
     let rep = &ctx.rep;
     let adm = admissible_codings(c.version, c.status, c.te.as_deref(), c.len, c.thr());
